@@ -374,6 +374,7 @@ type scanExec struct {
 	br   *client.Broker
 
 	doneVer map[string][2]int64
+	handed  map[string][2]int64 // name -> version (size, mtime) the last scan handed on and left hashed in the cache
 	fails   []string
 	key     strings.Builder
 
@@ -1138,6 +1139,7 @@ func (e *scanExec) do(op []string) string {
 			scanInfra("%v", err)
 		}
 		e.doneVer = map[string][2]int64{}
+		e.handed = map[string][2]int64{}
 		for _, c := range es {
 			h := ""
 			if c.hashed {
@@ -1242,6 +1244,35 @@ func (e *scanExec) do(op []string) string {
 				e.fail("eligible-not-queued", "scan did not hand on %q, which is eligible and new or changed", n)
 			}
 		}
+		// history clause: a version that a scan handed on (and recorded with its hash) is not handed on again by a later
+		// scan while the file is unchanged - whatever the cache says now (a cache that was not written back after the
+		// first scan would make the file look changed to every later scan, and to a restarted sender)
+		if e.handed == nil {
+			e.handed = map[string][2]int64{}
+		}
+		for n := range e.handed {
+			if _, ok := elig[n]; !ok {
+				delete(e.handed, n)
+			}
+		}
+		for n := range got {
+			if v, ok := elig[n]; ok && e.handed[n] == v && v[0] != 0 {
+				e.fail("unchanged-queued-again", "scan handed on %q (size=%d mtime=%d) again: an earlier scan handed on this very version and nothing changed since", n, v[0], v[1])
+			}
+		}
+		for n := range e.handed {
+			if !got[n] {
+				continue
+			}
+			delete(e.handed, n)
+		}
+		for n := range got {
+			if c, ok := after[n]; ok && c.hashed {
+				if v, ok := elig[n]; ok && c.size == v[0] && c.mtime == v[1] {
+					e.handed[n] = v
+				}
+			}
+		}
 		// clean-up: which leaves disappeared
 		var gone []string
 		for _, l := range e.leaves() {
@@ -1251,6 +1282,7 @@ func (e *scanExec) do(op []string) string {
 		}
 		sort.Strings(gone)
 		for _, g := range gone {
+			delete(e.handed, g) // removed at the source: a file created under that name later is a new file
 			c, cached := before[g]
 			nd := e.nodeAt(g)
 			switch {
